@@ -490,7 +490,7 @@ func genC02(r *vh.Runner) {
 			}
 		}
 		// replacement by the corresponding datagram of another handshake
-		reps := r.Pick(4, 40)
+		reps := r.Pick(4, 600)
 		for rep := 0; rep < reps; rep++ {
 			r.Case(fmt.Sprintf("splice/hidden=%v/%d", ms.hidden, rep), map[string]any{"hidden": ms.hidden, "rep": rep}, func(c *vh.Case) {
 				c.Bubble(func() {
